@@ -70,7 +70,11 @@ func RunInProc(c *FCase) *vkit.Outcome {
 		defer st.Close()
 		var all []*eventbus.StoredEvent
 		cur := eventbus.OffsetOldest
-		for {
+		for rounds := 0; ; rounds++ {
+			if rounds > 10000 {
+				o.Failf("", "%s: a chain of limited reads over the reopened log does not end (%d events so far)", when, len(all))
+				return false
+			}
 			page, next, err := st.Read(bg, cur, 7)
 			if err != nil {
 				o.Failf("", "%s: reading the reopened log failed: %v", when, err)
